@@ -8,7 +8,8 @@
    address, the bucket in order (entries of different addresses interleave freely).
    Tied to src/bin_archive.rs by `./check C01`. *)
 From Coq Require Import List NArith ZArith Bool Permutation.
-From Mila Require Import Lib.Bytes Lib.Machine Model.BinArchive Model.BinFormat Proofs.AMapLemmas Proofs.BinFormatSpec Proofs.BinParserCorrect.
+From Mila Require Import Lib.Bytes Lib.Machine Model.BinArchive Model.BinFormat Proofs.AMapLemmas Proofs.BinFormatSpec Proofs.BinParserCorrect
+  Proofs.BinSerializeConformsBase Proofs.BinSerializeConformsPhases Proofs.BinSerializeConforms Proofs.BinRoundTrip.
 Import ListNotations.
 Local Open Scope N_scope.
 
@@ -22,6 +23,50 @@ Theorem C01_parser_correct : forall e f c,
     (forall x, am_get x (a_labels a) = am_get x (c_labels c)) /\
     NoDup (am_keys (a_ptrs a)) /\ NoDup (am_keys (a_text a)) /\ NoDup (am_keys (a_labels a)).
 Proof. exact parser_correct. Qed.
+
+(* serialize succeeds on every archive of the property's domain and its image conforms to the format for the
+   PUBLISHED content: the archive's own strings, pointers and labels, the data with every annotated cell
+   filled in followed by the padded c-string pool, and one pointer into the pool per pending c-string.
+   [wf_archive] (Proofs/BinSerializeConforms.v) is the property's quantifier: at most one annotation per cell,
+   cells inside the data and not overlapping, targets and labels <= size, NUL-free well-formed strings,
+   non-empty buckets; no alignment of the data length.  [fits32]: the image is smaller than 4 GiB. *)
+Theorem C01_serialize_conforms : forall m a, wf_archive a -> fits32 a ->
+  exists f, serialize m a = Ok f /\ wfb f /\ conforms (a_endian a) f (published a).
+Proof. exact serialize_conforms. Qed.
+
+(* the serialized image is itself well-formed: header totals exact, every table entry and label name inside
+   the file, tables word-aligned whenever the data is (c-string pool included) *)
+Theorem C01_image_wellformed : forall m a f, wf_archive a -> fits32 a -> serialize m a = Ok f ->
+  let d := c_data (published a) in let e := a_endian a in
+  exists ptab ltab txt,
+    f = enc e 4 (lenN f) ++ enc e 4 (lenN d) ++ enc e 4 (lenL ptab) ++ enc e 4 (lenL ltab) ++ zeros 16
+        ++ d ++ u32s e ptab ++ u32s e (flat ltab) ++ txt /\
+    lenN f < U32 /\ lenN d = size a + lenN (pool_bytes a) /\
+    Forall (fun c => c + 4 <= lenN d) ptab /\
+    Forall (fun p => fst p <= lenN d /\ snd p < lenN txt) ltab /\
+    (size a mod 4 = 0 -> (32 + lenN d) mod 4 = 0 /\ (32 + lenN d + 4 * lenL ptab) mod 4 = 0).
+Proof. exact serialize_image_wellformed. Qed.
+
+(* the round trip: same size (plus the pool the format appends; nothing without c-strings), same raw bytes
+   outside annotated cells, same strings, pointers, labels in per-address order, every pending c-string
+   readable at its cell - in either endianness, strings and c-strings mixed *)
+Theorem C01_round_trip : forall m a,
+  wf_archive a -> fits32 a ->
+  exists f a',
+    serialize m a = Ok f /\ wfb f /\ from_bytes (a_endian a) f = Ok a' /\
+    a_endian a' = a_endian a /\ a_cstrs a' = [] /\
+    size a' = size a + lenN (pool_bytes a) /\ lenN (pool_bytes a) mod 4 = 0 /\ (a_cstrs a = [] -> size a' = size a) /\
+    (forall i, (i < N.to_nat (size a))%nat -> outside (cells a) i -> nth_error (a_data a') i = nth_error (a_data a) i) /\
+    (forall x, am_get x (a_text a') = am_get x (a_text a)) /\
+    (forall x, ~ In x (cs_cells a) -> am_get x (a_ptrs a') = am_get x (a_ptrs a)) /\
+    (forall x, am_get x (a_labels a') = am_get x (a_labels a)) /\
+    (forall s cs cell, In (s, cs) (a_cstrs a) -> In cell cs -> read_c_string a' cell = Ok (Some s)).
+Proof. exact round_trip. Qed.
+
+(* non-vacuity of the domain: a big-endian archive, data length 14 (unaligned), string at 0, pending c-string at 4,
+   pointer 8 -> 2, two labels on the end address *)
+Example C01_example_domain : wf_archive ex_archive /\ fits32 ex_archive.
+Proof. exact ex_archive_wf. Qed.
 
 (* non-vacuity: a big-endian file, data length 8, the string of cell 0 sits AFTER junk in the text
    section, pointer table in an order different from the content's listing, label entries of two addresses interleaved, two labels on
